@@ -328,7 +328,7 @@ fn sep0(ch: &mut Choices) -> String {
 /// (label name, offset) pairs usable for `offset label` spellings
 pub type OffsetLabels<'a> = &'a [(String, u16)];
 
-fn render_unsigned(v: u32, ch: &mut Choices, labels: OffsetLabels) -> String {
+pub fn render_unsigned(v: u32, ch: &mut Choices, labels: OffsetLabels) -> String {
     let c = ch.next();
     match c % 8 {
         0..=2 => format!("{}", v),
